@@ -719,10 +719,16 @@ impl State {
                 // Calculate U_dagger (adjoint of u_matrix)
                 let u_dagger_matrix = calculate_adjoint(&u_matrix);
 
-                // Transform the new state back by applying U_dagger
-                let final_state = computational_measurement_result
-                    .new_state
-                    .unitary_multi(actual_measured_qubits, u_dagger_matrix)?;
+                // Transform the new state back by applying U_dagger. U was validated above, so its adjoint is
+                // unitary too; it is applied without a second tolerance test (which rounding could fail).
+                let u_dagger_gate = Unitary2 {
+                    matrix: u_dagger_matrix,
+                    is_ryphase: crate::components::operator::IsRyPhase::None,
+                };
+                let mut final_state = computational_measurement_result.new_state.clone();
+                for &qubit in actual_measured_qubits {
+                    final_state = u_dagger_gate.apply(&final_state, &[qubit], &[])?;
+                }
 
                 Ok(MeasurementResult {
                     basis: MeasurementBasis::Custom(u_matrix),
